@@ -332,10 +332,10 @@ func enumerateCNF(tier string, seed int64, certOnly bool, yield func(string, cor
 	thorough := tier == "thorough"
 	// T2: all entries, unbounded choice exploration on the tiny part
 	full := []cfg{{"slice", 0, 0, 9}, {"slicenb", 0, 0, 1}, {"slicenb", 1, 0, 1}, {"dimacs", 0, 0, 1}, {"dimacs", 1, 1, 1}, {"slice", 0, 1, 2}}
-	light := []cfg{{"slice", 0, 0, 1}, {"dimacs", 1, 1, 1}}
+	light := []cfg{{"slice", 0, 0, 1}, {"dimacs", 1, 1, 1}, {"slice", 0, -1, 0}}
 	if certOnly {
 		full = []cfg{{"slice", 0, 0, 9}, {"dimacs", 1, 1, 2}}
-		light = []cfg{{"slice", 0, 0, 1}, {"slice", 0, 1, 1}}
+		light = []cfg{{"slice", 0, 0, 1}, {"slice", 0, 1, 1}, {"slice", 0, -1, 0}}
 	}
 	t2max, t2short := 3, 3
 	if thorough {
@@ -387,9 +387,9 @@ func enumerateCNF(tier string, seed int64, certOnly bool, yield func(string, cor
 	if !famL6(l6k, l6p, func(f [][]int, n int) bool { return emit("L6", f, n, wl) }) {
 		return
 	}
-	mcfg := []cfg{{"slice", 0, 0, 1}, {"dimacs", 0, 1, 1}, {"slice", 0, 2, 0}}
+	mcfg := []cfg{{"slice", 0, 0, 1}, {"dimacs", 0, 1, 1}, {"slice", 0, 2, 0}, {"slice", 0, -1, 1}}
 	if certOnly {
-		mcfg = []cfg{{"slice", 0, 0, 1}, {"slice", 0, 1, 1}}
+		mcfg = []cfg{{"slice", 0, 0, 1}, {"slice", 0, 1, 1}, {"slice", 0, -1, 1}}
 	}
 	if !famM(seed, tier, func(name string, f [][]int, n int) bool { return emit("M/"+name, f, n, mcfg) }) {
 		return
@@ -398,7 +398,7 @@ func enumerateCNF(tier string, seed int64, certOnly bool, yield func(string, cor
 	if thorough {
 		nr = 400
 	}
-	rcfg := []cfg{{"slice", 0, 0, 1}, {"slice", 0, 1, 0}}
+	rcfg := []cfg{{"slice", 0, 0, 1}, {"slice", 0, 1, 0}, {"slice", 0, -1, 0}}
 	if certOnly {
 		rcfg = rcfg[:1]
 	}
@@ -412,7 +412,7 @@ type c01 struct{}
 func (c01) ID() string    { return "C01" }
 func (c01) Level() string { return "exploration" }
 func (c01) Rule() string {
-	return "cases = every CNF of the families T2 (n=2, all literal sequences of length 0..3 as clauses, all clause sequences), S3, S4, L6 (watch movement), M (conflict-rich seeds and all one-edit neighbours), R (seeded catalogue of random 2/3-CNFs over 6..10 variables with all one-edit neighbours) x entry point (ParseSlice, ParseSliceNb with n and n+1 declared, ParseCNF) x learned-clause limit (default,1,2); each case is executed once per heuristic choice list (decision variable/polarity, restart now, reduce now) up to the case's deviation bound; every execution is judged against the truth table of the input as written. A case is non-trivial when some execution made a decision or met a conflict, or parse-time simplification decided it with at least one unit or duplicate/tautology removal (clauses present)."
+	return "cases = every CNF of the families T2 (n=2, all literal sequences of length 0..3 as clauses, all clause sequences), S3, S4, L6 (watch movement), M (conflict-rich seeds and all one-edit neighbours), R (seeded catalogue of random 2/3-CNFs over 6..10 variables with all one-edit neighbours) x entry point (ParseSlice, ParseSliceNb with n and n+1 declared, ParseCNF) x learned-clause limit (default, reduce at 1 or 2 stored clauses, or tight: the limit always equals the number of stored clauses); each case is executed once per heuristic choice list (decision variable/polarity, restart now, reduce now) up to the case's deviation bound; every execution is judged against the truth table of the input as written. A case is non-trivial when some execution made a decision or met a conflict, or parse-time simplification decided it with at least one unit or duplicate/tautology removal (clauses present)."
 }
 func (c01) Assumptions() []string {
 	return []string{
